@@ -189,11 +189,20 @@ def write_replay(prop, sig, rec):
     os.makedirs(d, exist_ok=True)
     key = sig if rec.get("input") is None else sig + "|" + str(rec.get("input"))
     p = os.path.join(d, _sighash(key) + ".json")
+    doc = {"property": prop, "sig": sig, "input": rec.get("input"), "what": rec.get("what"),
+           "item": rec.get("item"), "detail": rec.get("detail"),
+           "replay_cmd": f"./vcheck {prop} --replay {os.path.relpath(p, VERIF)}"}
+    it = rec.get("item") or {}
+    if isinstance(it, dict) and "hist" in it and "kind" in it:
+        # explorer violations: the history also as a plain script that needs neither the explorer nor the reference model
+        try:
+            from .explore import ops as _ops
+
+            doc["standalone_py"] = _ops.to_python(it["kind"], it["hist"], it.get("op"))
+        except Exception as e:          # never let the convenience script hide the violation
+            doc["standalone_py"] = f"# could not be rendered: {e!r}"
     with open(p, "w") as f:
-        json.dump({"property": prop, "sig": sig, "input": rec.get("input"), "what": rec.get("what"),
-                   "item": rec.get("item"), "detail": rec.get("detail"),
-                   "replay_cmd": f"./vcheck {prop} --replay {os.path.relpath(p, VERIF)}"},
-                  f, indent=1, default=jdefault)
+        json.dump(doc, f, indent=1, default=jdefault)
     return os.path.relpath(p, VERIF)
 
 
